@@ -40,6 +40,14 @@ def run_filter_replay(rep, props=None):
 
 def run_replay(rep):
     kind = rep.get("kind", "filter")
+    if kind == "filter" and rep.get("property") == "C16":
+        # an arc passing deep through a region must not be forwarded (last event of the replay)
+        cfg = cfg_of(rep)
+        evs = events_of(rep)
+        res, _h = oracle.run_events(cfg, evs)
+        if evs[-1][1] in oracle.forwarded(evs[-1], res[-1]):
+            return ["step %d: arc %r passes deep through a region but was forwarded" % (len(evs) - 1, evs[-1][1])]
+        return []
     if kind == "filter":
         v, _res = run_filter_replay(rep)
         return ["step %d: %s" % (i, m) for (_p, i, m) in v]
